@@ -44,6 +44,9 @@ static long vf_serial;
 static long vf_allocs, vf_frees, vf_badfree;   /* totals since vf_reset() */
 static long vf_step_allocs, vf_step_frees;     /* since vf_step() */
 static long vf_fail_after = -1;                /* >= 0: fail the n-th next allocation */
+#define VF_FREELOG 64
+static long vf_freed[VF_FREELOG];              /* serials released since vf_step(), in order */
+static int  vf_nfreed;
 
 static void vf_reset(void)
 {
@@ -60,6 +63,7 @@ static void vf_reset(void)
 static void vf_step(void)
 {
 	vf_step_allocs = vf_step_frees = 0;
+	vf_nfreed = 0;
 }
 static struct vf_blk *vf_find(const void *p)
 {
@@ -68,6 +72,23 @@ static struct vf_blk *vf_find(const void *p)
 	for (i = vf_used; i-- > 0; ) {
 		if (vf_tab[i].live && vf_tab[i].p == p) return vf_tab + i;
 	}
+	return 0;
+}
+/* live block that contains the address */
+static struct vf_blk *vf_containing(const void *p)
+{
+	int i;
+	if (!p) return 0;
+	for (i = vf_used; i-- > 0; ) {
+		const char *s = (const char *) vf_tab[i].p;
+		if (vf_tab[i].live && (const char *) p >= s && (const char *) p < s + (vf_tab[i].size ? vf_tab[i].size : 1)) return vf_tab + i;
+	}
+	return 0;
+}
+static int vf_serial_live(long serial)
+{
+	int i;
+	for (i = 0; i < vf_used; i++) if (vf_tab[i].live && vf_tab[i].serial == serial) return 1;
 	return 0;
 }
 static long vf_live(void)
@@ -118,6 +139,7 @@ void vf_free(void *p)
 	}
 	b->live = 0;
 	vf_frees++; vf_step_frees++;
+	if (vf_nfreed < VF_FREELOG) vf_freed[vf_nfreed++] = b->serial;
 	free(p);
 }
 void *vf_realloc(void *p, size_t n)
